@@ -80,12 +80,9 @@ for _l in (1, 2, 3, 4):
         _fl = _BCD | (_REV if _f & 1 else 0) | (_REQ if _f & 2 else 0) | (_HCD if _f & 4 else 0)
         # measured: BCD read len 2 ~50 s, len 3 ~1000 s, len 4 ~1200 s; BCD write len >= 3 did not finish in 3000 s
         # (division by powers of 100) and is therefore NOT claimed (DESIGN.md 5, C06 residue)
-        if _l <= 2:
-            R('readRawValue_bcd_f%02x_len%d' % (_fl, _l), 'h_readRawValue_b2', None, unwind=5,
-              defines=['CASE_FLAGS=0x%x' % _fl, 'CASE_LEN=%d' % _l], props=('C05', 'C10', 'C20'), cost=50, tier='quick' if _f in (0, 5) else 'thorough')
-        elif _f in (0, 5):
-            R('readRawValue_bcd_f%02x_len%d' % (_fl, _l), 'h_readRawValue_b2', None, unwind=5, timeout=3000,
-              defines=['CASE_FLAGS=0x%x' % _fl, 'CASE_LEN=%d' % _l], props=('C05', 'C10', 'C20'), cost=1000, tier='thorough')
+        # with kissat as back end the 3 and 4 byte BCD reads finish in 30-50 s (MiniSat: 1000-3000 s)
+        R('readRawValue_bcd_f%02x_len%d' % (_fl, _l), 'h_readRawValue_b2', None, unwind=5, timeout=1800, solver='kissat',
+          defines=['CASE_FLAGS=0x%x' % _fl, 'CASE_LEN=%d' % _l], props=('C05', 'C10', 'C20'), cost=60, tier='quick' if _f in (0, 5) else 'thorough')
         # retried with kissat: BCD write of 2 bytes finishes (~300 s), 3 bytes did not finish within 40 minutes and stays unclaimed
         if _l == 2 and _f in (0, 5):
             R('writeRawValue_bcd_f%02x_len%d' % (_fl, _l), 'h_writeRawValue_b2', None, unwind=5, unwindset={'vsym_resize.0': SS_CAP + 1}, solver='kissat', timeout=3000,
